@@ -150,6 +150,24 @@ def check(case, obj=None) -> list[Fail]:
             got = [dump(t._to_serial_root()) for t in f(i)]
             if got != ref.enc_row(row):
                 fails.append(Fail("nth-row", k, f"i={i} got={got} want={ref.enc_row(row)}"[:300]))
+    if k == "Const":
+        # constants come and go: the kind of a Const's port is that of the value it holds now, whatever values
+        # lived (at the same address) before
+        import hugr.ops as hops2
+        import hugr.tys as htys
+        import hugr.val as hval
+        from hugr.std.float import FloatVal
+        from hugr.std.int import IntVal
+
+        makers = [lambda: hval.Tuple(hval.TRUE), lambda: IntVal(3, 2), lambda: FloatVal(0.5), lambda: hval.Some(hval.TRUE), lambda: IntVal(1, 5), lambda: hval.None_(htys.Bool), lambda: hval.Tuple(), lambda: hval.Left([hval.TRUE], [htys.Unit])]
+        for j_ in range(32):
+            vj = makers[(j_ * 3) % len(makers)]()  # a fresh value object every time; the previous one is gone
+            cj = hops2.Const(vj)
+            kj = cj.port_kind(OutPort(n, 0))
+            if not isinstance(kj, htys.ConstKind) or dump(kj.ty._to_serial_root()) != dump(vj.type_()._to_serial_root()):
+                fails.append(Fail("port_kind", "Const:kind-of-an-earlier-constant", f"Const({vj!r}) offers {kj!r}"[:300]))
+                break
+            del cj, vj
     # graph-level: the HUGR reports for a port what the node's operation reports (every operation kind, every
     # offset including the order port: e.g. no order port on a definition, a constant, a case or a block)
     if k != "Module":
